@@ -274,7 +274,8 @@ def gen():
                           kani::cover!(true);
                           assert!(on_arc(lo, hi, s));
                           """, [f"<palette::hues::Uniform{H.split('::')[-1]}<T> as UniformSampler>::{{{kind}, sample}}", f"{H}::into_positive_degrees"],
-                          f"all f32 ends with -360 <= lo {cmp} hi <= 720 degrees, at least one with a rounded normal form; every sample the contract allows")
+                          f"all f32 ends with -360 <= lo {cmp} hi <= 720 degrees, at least one with a rounded normal form; every sample the contract allows",
+                          witness="c19_uniform_hue_rounded_negative_ends")
             o.harness(f"c19_{key}_uniform_{kind}_in_plain_arc",
                       f"{H}<K32>: for ends 0 <= lo {cmp} hi < 360 degrees (arcs that do not wrap; the ends are their own normal forms) "
                       f"Uniform::{kind}(lo, hi).sample(rng) is a hue in [lo, hi], exactly (no tolerance). {CONTRACT}",
